@@ -8,6 +8,7 @@ _MODULES = {
     "C04": ("scen_api", "C04"),
     "C05": ("scen_api", "C05"),
     "C06": ("scen_api", "C06"),
+    "C07": ("scen_fs", "C07"),
     "C13": ("scen_api", "C13"),
     "C16": ("scen_c16", "C16"),
     "C17": ("scen_c17", "C17"),
